@@ -38,6 +38,32 @@ def run(ctx):
             node = node.orelse[0]
         else:
             break
+    # a branch beyond the four documented ones is harmless only if it hands back a value that needs no bound: a string / bytes / None / bool
+    def harmless(br):
+        t = A.norm(br.test)
+        scalar_only = all(isinstance(n, ast.Call) and A.call_name(n) == "isinstance" and A.norm(n.args[0]) == "data"
+                          and set(A.norm(e) for e in (n.args[1].elts if isinstance(n.args[1], ast.Tuple) else [n.args[1]])) <= {"str", "bytes", "bool", "type(None)"}
+                          for n in ([br.test] if not isinstance(br.test, ast.BoolOp) else br.test.values)) or t == "data is None"
+        return scalar_only and len(br.body) == 1 and A.norm(br.body[0]) == "return data"
+
+    def kind(br):
+        t = A.norm(br.test)
+        return "mapping" if t == "isinstance(data, collections.abc.Mapping)" else \
+            "iterable" if t.startswith("isinstance(data, collections.abc.Iterable)") else None
+    extras = []
+    if len(ladder) > 4:
+        core = []
+        for br in ladder:
+            if harmless(br):
+                continue
+            core.append(br)
+        # the documented four: the mapping branch, the iterable branch and the last two (integral, float); whatever else is left is a shortcut
+        extras = [br for br in core if kind(br) is None][:-2] if len(core) > 4 else []
+        for br in extras:
+            ctx.ob("C38.D3-recursion-and-order", cname(f, None, "no shortcut branch beside mapping / iterable / integral / float"), False,
+                   f"values with `{A.short(br.test, 110)}` are answered by `{A.short(br.body[-1], 60)}` without the per-value bound being applied: a number "
+                   "outside +-(2**53 - 1) (or a non-finite float) inside such a value passes through", nontrivial=True, where=where(f, br))
+        ladder = [br for br in core if br not in extras]
     ctx.ob("C38.D3-recursion-and-order", cname(f, None, "four branches: mapping, iterable, integral, float"), len(ladder) == 4,
            "" if len(ladder) == 4 else f"{len(ladder)} branches", where=where(f, f.node))
     if len(ladder) != 4:
@@ -196,6 +222,8 @@ CLAIM = {
 
 U = "utils/__init__.py"
 MUTANTS = [
+    ("narrow arrays returned through tolist() without the per-element bound (seed C38-c)",
+     [(U, "    elif isinstance(data, collections.abc.Iterable) and not isinstance(data, str):\n", "    elif isinstance(data, np.ndarray) and data.ndim > 0 and data.dtype.kind in \"biuf\" and data.dtype.itemsize <= 4:\n        return data.tolist()\n    elif isinstance(data, collections.abc.Iterable) and not isinstance(data, str):\n")], "C38.D3"),
     ("numpy integers pass through (revert of F-11)", [(U, "    elif isinstance(data, (int, float, np.integer, np.floating)) and not (data % 1)", "    elif isinstance(data, (int, float)) and not (data % 1)")], "C38.D1"),
     ("upper bound 2**53", [(U, "not (1 - 2**53 <= int(data) <= 2**53 - 1):", "not (1 - 2**53 <= int(data) <= 2**53):")], "C38.D2"),
     ("clamp lower bound off by one", [(U, "        return min(max(int(data), 1 - 2**53), 2**53 - 1)", "        return min(max(int(data), -(2**53)), 2**53 - 1)")], "C38.D2"),
@@ -209,6 +237,7 @@ MUTANTS = [
     ("float clamp to infinity", [(U, "        return min(max(float(data), -1.7976e308), 1.7976e308)", "        return min(max(float(data), -1.7976e308), float(\"inf\"))")], "C38.D2"),
 ]
 BENIGN = [
+    ("strings answered by a branch of their own", [(U, "    if isinstance(data, collections.abc.Mapping):\n        return {k: truncate_json_overflow(v) for k, v in data.items()}\n    elif", "    if isinstance(data, str):\n        return data\n    elif isinstance(data, collections.abc.Mapping):\n        return {k: truncate_json_overflow(v) for k, v in data.items()}\n    elif")]),
     ("range test written with abs(int(data)) and a named bound", [(U, "def truncate_json_overflow(data):", "_JSON_MAX_INT = 2**53 - 1\n\n\ndef truncate_json_overflow(data):"), (U, "and not (1 - 2**53 <= int(data) <= 2**53 - 1):", "and abs(int(data)) > _JSON_MAX_INT:")]),
 ]
 MUTANTS += [
